@@ -1129,6 +1129,26 @@ def task_epochs(task):
         else:
             cx.out["deformation epochs %s-D %s: ok" % (fam[0], pcl)] += 1
             cx.out["deformation epochs: %s common coordinates" % ("no" if n == 0 else "1-3" if n <= 3 else "4-6" if n <= 6 else "7-12")] += 1
+    # object histories: one GamaLocalDeformation object given several epoch pairs in turn (every sequence of <= 3 pairs out
+    # of (s1, s1) and the first / middle / last second epoch); each answer must be the text of a fresh object
+    if exes.get("defhist") and r1 is not None:
+        pick = []
+        for s2 in [s1, seconds[0], seconds[len(seconds) // 2], seconds[-1]]:
+            pth = os.path.join(d, s2 + ".xml")
+            if s2 not in [q[0] for q in pick] and ep_view(pth) is not None: pick.append((s2, pth))
+        if len(pick) >= 2:
+            rc, so, se = run_cmd([exes["defhist"], r1["path"]] + [q[1] for q in pick])
+            so = (so or b"").decode("utf8", "replace") if isinstance(so, bytes) else (so or "")
+            done = re.search(r"DONE sequences=(\d+) steps=(\d+)", so)
+            run = {"tool": "defhist", "s1": s1, "seconds": [q[0] for q in pick]}
+            if rc != 0 or not done:
+                cx.v("C12|deformation|object-history|crash|epochs-%s" % fam[0], "rc=%s out=%r err=%r" % (rc, so[-200:], (se or b"")[-300:]), run)
+            else:
+                cx.cnt["states"] += int(done.group(1)); cx.cnt["transitions"] += int(done.group(2)); cx.cnt["deformation object histories"] += int(done.group(1))
+                bad = [l for l in so.splitlines() if l.startswith("DIFF ")]
+                for l in bad[:3]:
+                    cx.v("C12|deformation|object-history|differs-from-fresh-object|epochs-%s" % fam[0], "pairs (first epoch %s, second epochs %r): %s" % (s1, [q[0] for q in pick], l), run)
+                if not bad: cx.out["deformation object histories: as a fresh object"] += 1
     cx.sample = "epochs: family %s first epoch %s (ids %s) x %d second epochs, e.g. %s" % (
         EP.famkey(fam), s1, ",".join(EP.IDSETS[fam[1]][:fam[2]]), len(seconds), seconds[len(seconds) // 2])
     return (cx.viol, dict(cx.out), dict(cx.cnt), cx.sample)
@@ -1417,7 +1437,7 @@ def private_copies(ck, exes):
 def main():
     ck = vlib.Check("C12")
     exes = {"gama": vlib.exe("rel", "gama-local"), "cmp": vlib.exe("rel", "compare-xyz"),
-            "def": vlib.exe("rel", "gama-local-deformation"), "xmlrt": vlib.hbuild("xmlrt", "rel")}
+            "def": vlib.exe("rel", "gama-local-deformation"), "xmlrt": vlib.hbuild("xmlrt", "rel"), "defhist": vlib.hbuild("defhist", "rel")}
     exes = private_copies(ck, exes)
     if ck.args.replay:
         replay(ck, exes)
